@@ -1,9 +1,12 @@
 package scenario
 
 import (
+	"bytes"
 	"encoding/json"
 	"fmt"
+	"io"
 	"os"
+	"os/exec"
 	"strings"
 	"sync"
 
@@ -46,7 +49,7 @@ func FreeMode() bool { return os.Getenv("IONSIM_C18_MODE") == "free" }
 
 func (concurrent) Rule() string {
 	return "Per run index: a shared world (8 shared symbol tables in several versions, 0..3 shared Adjust()ed views, one ion.NewCatalog, " +
-		"V1SystemSymbolTable, 6 static shared Go types plus two dynamic struct types per index out of 16383 built with reflect.StructOf, a catalog that in 2 of 3 indices holds only a subset of the tables — version skew) and 2..6 seeded caller tasks, each with its own Readers / Writers / Encoders / Decoders / " +
+		"V1SystemSymbolTable, 18 static shared Go types (structs, embedded, maps, a pointer-receiver Marshaler met as map value / slice element / pointer / field, annotation wrappers over int, int64, float32, float64, string, slice, array, interface) plus two dynamic struct types per index out of 16383 built with reflect.StructOf, a catalog that in 2 of 3 indices holds only a subset of the tables — version skew) and 2..6 seeded caller tasks, each with its own Readers / Writers / Encoders / Decoders / " +
 		"Marshal / Unmarshal calls: write a document through text, pretty or binary writers importing shared tables (or a fixed local " +
 		"table over them); read and decode streams whose local tables import the shared tables with smaller, equal, larger or absent " +
 		"max_id through the shared catalog (Adjust, FindExact/FindLatest, placeholder and append paths); Encode / Marshal* / Unmarshal / " +
@@ -55,7 +58,9 @@ func (concurrent) Rule() string {
 		"parked-goroutine scheduler with a yield at every Source.Read, Sink.Write and catalog lookup; every task's output must equal its " +
 		"solo baseline (same task alone on a fresh world) and a public-API digest of all shared objects must be unchanged at every yield " +
 		"and at the end. Part B: the same task sets run free (no harness synchronisation between start and join) 3 times each in a " +
-		"-race build at GOMAXPROCS 16 and 2; any race report fails, and outputs are compared with the solo baseline as well. " +
+		"-race build at GOMAXPROCS 16 and 2; any race report fails, and outputs are compared with the solo baseline as well. One index " +
+		"in 16 also takes the solo baseline of every task that involves Go types in a fresh process (`ionsim solo`): the literal " +
+		"'run alone', free of whatever package-level state (type-keyed registries, lookup tables) earlier tasks left in the worker. " +
 		"Distinct by hash of (task set, pick list); non-trivial = at least one switch away from a still-runnable task."
 }
 func (concurrent) Assumptions() []string {
@@ -87,6 +92,8 @@ type concCase struct {
 	// NoYieldDigest: do not observe the shared objects at yield points (only at the end), so that the observer does
 	// not initialise lazily built state ahead of the tasks.
 	NoYieldDigest bool `json:"no_yield_digest,omitempty"`
+	// Pristine: compare with solo baselines taken in fresh processes as well.
+	Pristine bool `json:"pristine,omitempty"`
 }
 
 // ---------------------------------------------------------------------------------------------------------
@@ -228,8 +235,38 @@ func goTypeData(r *prng.Rand, typ int, text bool) []byte {
 				l.Kids = append(l.Kids, recordModel(r))
 			}
 			v = l
-		default:
+		case 5:
 			v = model.NewSeq(model.Struct, recordModel(r).Named(model.T("k")), model.NewInt(1).Named(model.T("a1")))
+		case 6:
+			v = model.NewSeq(model.Struct, model.NewSeq(model.Struct, model.NewInt(int64(r.Intn(90))).Named(model.T("deg"))).Named(model.T("k9")))
+		case 7:
+			v = model.NewSeq(model.List, model.NewSeq(model.Struct, model.NewInt(int64(r.Intn(90))).Named(model.T("deg"))))
+		case 8:
+			v = model.NewSeq(model.Struct, model.NewInt(int64(r.Intn(90))).Named(model.T("deg")))
+		case 9:
+			t := func() *model.Value {
+				return model.NewSeq(model.Struct, model.NewInt(int64(r.Intn(90))).Named(model.T("deg")))
+			}
+			v = model.NewSeq(model.Struct, t().Named(model.T("t")), t().Named(model.T("p")), model.NewSeq(model.List, t()).Named(model.T("l")))
+		default:
+			// annotated scalars and sequences for the annotation wrappers (the value kind matches the wrapper most of the time)
+			k := typ % drive.CTypeCount
+			if r.Chance(1, 5) {
+				k = 10 + r.Intn(8)
+			}
+			switch k {
+			case 10, 11:
+				v = model.NewInt(int64(r.Intn(1000)))
+			case 12, 13:
+				v = model.NewFloat(float64(r.Intn(64)) / 4)
+			case 14:
+				v = model.NewString(ctxLocalTexts[r.Intn(len(ctxLocalTexts))])
+			case 15, 16:
+				v = model.NewSeq(model.List, model.NewInt(int64(r.Intn(9))), model.NewInt(int64(r.Intn(9))))
+			default:
+				v = model.NewInt(int64(r.Intn(9)))
+			}
+			v.Annots = append(v.Annots, model.T(ctxLocalTexts[r.Intn(len(ctxLocalTexts))]))
 		}
 		vals = append(vals, v)
 	}
@@ -563,6 +600,16 @@ func (s concurrent) runFree(c *Ctx, cs concCase, soloFn func() []string) {
 		all = append(all, repOut{outs, before, after})
 	}
 	solo = soloFn()
+	if pristineIndex(c.CurIndex) || cs.Pristine {
+		var got [][]string
+		for _, ro := range all {
+			got = append(got, ro.outs)
+		}
+		got = append(got, solo)
+		pcs := cs
+		pcs.Pristine = true
+		s.checkPristine(c, pcs, got, "run free with the other tasks (or alone afterwards in the same process)")
+	}
 	for _, ro := range all {
 		outs, before, after := ro.outs, ro.before, ro.after
 		for i := range outs {
@@ -628,12 +675,103 @@ func (s concurrent) Run(c *Ctx, i int) {
 		run.Policy = pol.kind
 		run.NoYieldDigest = q%2 == 1
 		picks, switches := s.runScheduled(c, run, pol.Pick, solo)
+		if q == 0 && pristineIndex(i) {
+			pcs := run
+			pcs.Picks = picks
+			pcs.Pristine = true
+			s.checkPristine(c, pcs, [][]string{solo}, "run alone in this worker process after other tasks")
+		}
 		c.Count("sched.runs", 1)
 		c.Count("sched.policy."+pol.kind, 1)
 		c.Count("sched.picks", int64(len(picks)))
 		c.Count("sched.switches", int64(switches))
 		if switches > 0 {
 			c.DistinctU(hashConc(cs, picks))
+		}
+	}
+}
+
+// SoloMain implements `ionsim solo`: one task, alone, on a fresh world, in a fresh process.
+func SoloMain(in io.Reader, out io.Writer) int {
+	var req struct {
+		World drive.CWorld `json:"world"`
+		Task  drive.CTask  `json:"task"`
+	}
+	if err := json.NewDecoder(in).Decode(&req); err != nil {
+		fmt.Fprintln(os.Stderr, "solo:", err)
+		return 2
+	}
+	io.WriteString(out, drive.RunCTask(drive.BuildIonWorld(req.World), req.Task, nil))
+	return 0
+}
+
+// pristineSolo runs every task of a case alone in its own fresh process: the literal meaning of "the output they
+// produce when run alone", free of whatever package-level state earlier tasks of this worker process left behind.
+func pristineSolo(cs concCase) ([]string, error) {
+	self, err := os.Executable()
+	if err != nil {
+		return nil, err
+	}
+	if strings.HasSuffix(self, "-race") {
+		// the plain build of the same sources starts a hundred times faster and computes the same outputs
+		if plain := strings.TrimSuffix(self, "-race"); fileExists(plain) {
+			self = plain
+		}
+	}
+	out := make([]string, len(cs.Tasks))
+	for i, t := range cs.Tasks {
+		switch t.Kind {
+		case "marshal", "encode", "unmarshal", "decode":
+		default:
+			// tasks that involve no Go types: process-wide registries keyed by type are not in play, and a process
+			// start costs about 50 ms here; they keep their in-process baseline
+			out[i] = "\x00same-process"
+			continue
+		}
+		req, _ := json.Marshal(map[string]interface{}{"world": cs.World, "task": t})
+		cmd := exec.Command(self, "solo")
+		cmd.Stdin = bytes.NewReader(req)
+		cmd.Env = append(os.Environ(), "GOMAXPROCS=1", "GORACE=halt_on_error=0 atexit_sleep_ms=0")
+		var ob, eb bytes.Buffer
+		cmd.Stdout = &ob
+		cmd.Stderr = &eb
+		if err := cmd.Run(); err != nil {
+			return nil, fmt.Errorf("solo process for task %d: %v: %s", i, err, trunc(eb.String(), 300))
+		}
+		out[i] = ob.String()
+	}
+	return out, nil
+}
+
+func fileExists(p string) bool {
+	st, err := os.Stat(p)
+	return err == nil && !st.IsDir()
+}
+
+// pristineEvery: one run index in n also gets pristine (fresh-process) solo baselines.
+const pristineEvery = 16
+
+// pristineIndex spreads those indices over the residue classes (workers take indices by i mod W).
+func pristineIndex(i int) bool {
+	return (i+i/pristineEvery)%pristineEvery == 0 && os.Getenv("IONSIM_NO_PRISTINE") == ""
+}
+
+func (s concurrent) checkPristine(c *Ctx, cs concCase, got [][]string, where string) {
+	pr, err := pristineSolo(cs)
+	if err != nil {
+		panic("concurrent: " + err.Error()) // infrastructure trouble, never a violation
+	}
+	c.Count("pristine.indices", 1)
+	for _, o := range pr {
+		if o != "\x00same-process" {
+			c.Count("pristine.solo-processes", 1)
+		}
+	}
+	for _, outs := range got {
+		for i := range outs {
+			if pr[i] != "\x00same-process" && outs[i] != pr[i] {
+				c.Report("C18", "C18.O", "C18.O/"+taskClass(cs.Tasks[i])+"/vs-fresh-process", fmt.Sprintf("task %d (%s) %s produced output that differs from what the same task produces alone in a fresh process (state left behind in the process by other tasks): %s", i, taskClass(cs.Tasks[i]), where, firstDiff(outs[i], pr[i])), cs)
+			}
 		}
 	}
 }
@@ -673,6 +811,11 @@ func (s concurrent) Replay(c *Ctx, caseJSON []byte) error {
 	solo := soloOutputs(cs)
 	ep := &sim.ExplicitPicks{List: cs.Picks}
 	s.runScheduled(c, cs, ep.Pick, solo)
+	if cs.Pristine {
+		// the process-history clause: run the whole task set once more in this process, then compare each task's
+		// in-process solo output with its fresh-process output
+		s.checkPristine(c, cs, [][]string{soloOutputs(cs)}, "run alone in this process after the other tasks")
+	}
 	return nil
 }
 
